@@ -519,7 +519,7 @@ func runConc(a []string) {
 			}
 		}()
 		limit := 15 * time.Minute
-		if f[0] == "crun" || f[0] == "cpause" || f[0] == "cedge" {
+		if f[0] == "crun" || f[0] == "cpause" {
 			limit = 150 * time.Second
 		}
 		select {
